@@ -3,18 +3,21 @@
 
   Property theorems only (helper lemmas: CelloProofs/Lemmas/Cmp.lean, CmpVal.lean).
   Model: Cello/Cmp.lean.  Source-derived definitions (regenerated from /repo on every run): CelloGen/Cmp.lean —
-  `intCmp`, `floatCmp` (translations of Int_Cmp / Float_Cmp of src/Num.c), `eq neq gt lt ge le` (src/Cmp.c), and the
-  texts of the comparison loops the hand model mirrors.
+  `intCmp`, `floatCmp` (translations of Int_Cmp / Float_Cmp of src/Num.c), `eq neq gt lt ge le` (src/Cmp.c);
+  CelloGen/CmpLoops.lean — the texts of the comparison loops and iterator steps the hand model mirrors, and
+  `sourceDiscipline`: how Array_Cmp / List_Cmp / Tuple_Cmp advance along `self` (by slot index or through the iterator).
 -/
 import Cello.Cmp
 import CelloGen.Cmp
+import CelloGen.CmpLoops
 import CelloProofs.Lemmas.Cmp
 import CelloProofs.Lemmas.CmpVal
+import CelloProofs.Lemmas.CmpObj
 
 set_option linter.unusedSimpArgs false
 
 namespace Cello.Cmp
-open CelloGen.Cmp (FloatOps)
+open CelloGen.Cmp (FloatOps Walk Discipline)
 
 /-- `compare` as the C convention -1 / 0 / 1 -/
 def ordSign : Ordering → Int
@@ -250,15 +253,114 @@ example :
     hasKind k a ∧ hasKind k b ∧ k.floatFree ∧ valCmp refFloatOps a b = -1 ∧ valCmp refFloatOps b a = 1 := by
   refine ⟨?_, ?_, ?_, by decide, by decide⟩ <;> simp [hasKind, Kind.floatFree]
 
+/-! ### objects: one object in several slots, in both operands, an operand compared with itself
+
+  A Tuple holds references, so the operands of `cmp` are object GRAPHS (`Obj`): the same object may sit in two slots of a
+  Tuple, in both operands, or be both operands.  `objCmpF D` runs the loops of Array_Cmp / List_Cmp / Tuple_Cmp on such
+  graphs under the traversal discipline `D`; `sourceDiscipline` is the one read off the source on every run. -/
+
+open CelloGen.CmpLoops (sourceDiscipline)
+
+/-- FULL statement (refuted below, known finding KF-C09-tuple-dup-obj, same root as F13): with the loops as they are in
+    the source, `cmp` of two objects ends and is the comparison of their CONTENTS — aliasing never matters. -/
+def C09_tuple_walk_content_statement : Prop :=
+  ∀ (ops : FloatOps UInt64) (fuel : Nat) (a b : Obj), a.size ≤ fuel →
+    objCmpF sourceDiscipline ops fuel a b = some (valCmp ops a.content b.content)
+
+/-- **C09 (aliasing), proved part.** With the loops as they are in the source now — Tuple_Cmp advances along `self` by slot
+    index (`sourceDiscipline.tupleSelf = .byIndex`: this `rfl` is what a change of the loop breaks), Array_Cmp / List_Cmp
+    through their positional iterators — `cmp(self, obj)` ends within `size self` steps and is `valCmp` of the two
+    contents, for EVERY `self`: whatever objects its Tuples reference from several slots, at any depth, whatever it
+    shares with `obj`, also when `self` and `obj` are one object.  Hypothesis on `obj` only: no Tuple inside it references
+    one object from two slots (`obj` is walked through `iter_next`, which for a Tuple searches by identity). -/
+theorem C09_tuple_walk_content_partial (ops : FloatOps UInt64) (fuel : Nat) (a b : Obj) (hf : a.size ≤ fuel)
+    (hb : b.nodup = true) : objCmpF sourceDiscipline ops fuel a b = some (valCmp ops a.content b.content) :=
+  objCmpF_eq_content sourceDiscipline ops rfl fuel a b hf hb
+
+/-- witnesses used below: `one`, `two` are Int objects; `sharedT = tuple(one, one, two)`, `sharedP = tuple(one, one)` -/
+def wOne : Obj := .val (.int 1)
+def wTwo : Obj := .val (.int 2)
+def sharedT : Obj := .tuple [(1, wOne), (1, wOne), (2, wTwo)]
+def sharedP : Obj := .tuple [(1, wOne), (1, wOne)]
+def arr112 : Obj := .val (.seq .array [.int 1, .int 1, .int 2])
+def lst111 : Obj := .val (.seq .list [.int 1, .int 1, .int 1])
+
+/-- non-vacuity: a Tuple with one object in two slots as `self`, against an Array, a Tuple that shares its objects, and a
+    nested Tuple that holds the shared Tuple twice -/
+example (ops : FloatOps UInt64) :
+    sharedT.size ≤ 20 ∧ arr112.nodup = true ∧ objCmpF sourceDiscipline ops 20 sharedT arr112 = some 0 ∧
+    objCmpF sourceDiscipline ops 20 sharedT (.tuple [(1, wOne), (3, wOne), (2, wOne)]) = some 1 ∧
+    objCmpF sourceDiscipline ops 40 (.tuple [(7, sharedT), (7, sharedT)]) (.tuple [(8, arr112), (9, arr112), (2, wTwo)]) = some (-1) :=
+  ⟨by decide, rfl, rfl, rfl, rfl⟩
+
+/-- hence on objects none of whose Tuples holds an object twice `cmp` is a lawful order, 0 exactly on equal content
+    (under `SubSign` for Float leaves), with the fuel the driver uses -/
+theorem C09_obj (ops : FloatOps UInt64) (hs : SubSign ops) (k : Kind) :
+    StrictCmpOn (fun o : Obj => o.nodup = true ∧ hasKind k o.content) (fun a b => norm a.content = norm b.content)
+      (fun a b => (objCmpF sourceDiscipline ops (fuelFor a b) a b).getD 0) :=
+  (C09_val ops hs k).pullback Obj.content (fun _ h => h.2)
+    (fun a b _ hb => by
+      rw [C09_tuple_walk_content_partial ops (fuelFor a b) a b (by unfold fuelFor; omega) hb.1]; rfl)
+    (fun _ _ _ _ => Iff.rfl)
+
+/-- **Known finding KF-C09-tuple-dup-obj: the full statement is refuted.** A Tuple that references one object from two slots
+    as the RIGHT operand (`obj`) is walked through Tuple_Iter_Next, which finds the current element again by identity and so
+    returns to the slot after its FIRST occurrence: `x = tuple(one, one, two)` gives `cmp(x, x) = 1` (not reflexive), and
+    against the Array `[1, 1, 2]` `cmp(x, arr) = 0` but `cmp(arr, x) = 1` (not antisymmetric). -/
+theorem C09_tuple_walk_content_refuted :
+    (∀ ops : FloatOps UInt64, objCmpF sourceDiscipline ops 20 sharedT sharedT = some 1 ∧
+      objCmpF sourceDiscipline ops 20 sharedT arr112 = some 0 ∧ objCmpF sourceDiscipline ops 20 arr112 sharedT = some 1 ∧
+      valCmp ops sharedT.content sharedT.content = 0 ∧ valCmp ops arr112.content sharedT.content = 0) ∧
+    ¬ C09_tuple_walk_content_statement := by
+  refine ⟨fun ops => ⟨rfl, rfl, rfl, rfl, rfl⟩, fun h => ?_⟩
+  have h1 := h refFloatOps 20 sharedT sharedT (by decide)
+  have h2 : objCmpF sourceDiscipline refFloatOps 20 sharedT sharedT = some 1 := rfl
+  rw [h2] at h1
+  revert h1; decide
+
+/-- **The identity-walk variant of Tuple_Cmp is not an order on a Tuple with a repeated object** (seeded change c09_c:
+    `item0 = Tuple_Iter_Next(self, item0)` in place of `i++; item0 = t->items[i]`).  Under `identityWalk sourceDiscipline`:
+    `tuple(one, one, two)` against the Array `[1, 1, 2]` of equal content gives -1 (so `eq` is false and `lt` true for equal
+    sequences); `tuple(one, one)` against the LONGER List `[1, 1, 1]` gives +1 where the content order gives -1;
+    and `cmp(x, x)` for `x = tuple(one, one)` has no value for any amount of fuel: it never terminates. -/
+theorem C09_tuple_identity_walk_refuted :
+    (∀ ops : FloatOps UInt64,
+      objCmpF (identityWalk sourceDiscipline) ops 20 sharedT arr112 = some (-1) ∧ valCmp ops sharedT.content arr112.content = 0 ∧
+      objCmpF (identityWalk sourceDiscipline) ops 20 sharedP lst111 = some 1 ∧ valCmp ops sharedP.content lst111.content = -1 ∧
+      (∀ fuel, objCmpF (identityWalk sourceDiscipline) ops fuel sharedP sharedP = none)) ∧
+    ¬ (∀ (ops : FloatOps UInt64) (fuel : Nat) (a b : Obj), a.size ≤ fuel → b.nodup = true →
+        objCmpF (identityWalk sourceDiscipline) ops fuel a b = some (valCmp ops a.content b.content)) := by
+  refine ⟨fun ops => ⟨rfl, rfl, rfl, rfl, fun fuel => ?_⟩, fun h => ?_⟩
+  · cases fuel with
+    | zero => rfl
+    | succ f =>
+      have hz : intCmp 1 1 = 0 := by decide
+      exact loopF_stuck (identityWalk sourceDiscipline) ops .tuple .tuple [(1, wOne), (1, wOne)] [(1, wOne), (1, wOne)] 1 1 hz
+        (fun _ => rfl) (fun _ => rfl) f [(1, wOne)] [(1, wOne)]
+  · have h1 := h refFloatOps 20 sharedT arr112 (by decide) rfl
+    have h2 : objCmpF (identityWalk sourceDiscipline) refFloatOps 20 sharedT arr112 = some (-1) := rfl
+    rw [h2] at h1
+    revert h1; decide
+
 /-! ### the hand model mirrors the loops that are in the source now -/
 
-/-- the bodies of Array_Cmp, List_Cmp, Tuple_Cmp, Tree_Cmp, String_Cmp, Type_Cmp and of `cmp` itself are, up to white
-    space, the texts `lexCmp` / `pairsCmp` / `bytesCmp` / `cmpTop` were written against -/
+/-- the bodies of Array_Cmp, List_Cmp, Tuple_Cmp, Tree_Cmp, String_Cmp, Type_Cmp, of `cmp` itself and of the iterator steps
+    the loops go through (Array_Iter_Next, List_Iter_Next, Tuple_Iter_Init, Tuple_Iter_Next) are, up to white space, the
+    texts `lexCmp` / `pairsCmp` / `bytesCmp` / `cmpTop` / `loopF` / `iterNext` were written against -/
 theorem C09_loops_as_modelled :
-    CelloGen.Cmp.arrayCmpText = CelloGen.Cmp.arrayCmpModelled ∧ CelloGen.Cmp.listCmpText = CelloGen.Cmp.listCmpModelled ∧
-    CelloGen.Cmp.tupleCmpText = CelloGen.Cmp.tupleCmpModelled ∧ CelloGen.Cmp.treeCmpText = CelloGen.Cmp.treeCmpModelled ∧
-    CelloGen.Cmp.stringCmpText = CelloGen.Cmp.stringCmpModelled ∧ CelloGen.Cmp.typeCmpText = CelloGen.Cmp.typeCmpModelled ∧
-    CelloGen.Cmp.cmpDispatchText = CelloGen.Cmp.cmpDispatchModelled :=
-  ⟨rfl, rfl, rfl, rfl, rfl, rfl, rfl⟩
+    CelloGen.CmpLoops.arrayCmpText = CelloGen.CmpLoops.arrayCmpModelled ∧ CelloGen.CmpLoops.listCmpText = CelloGen.CmpLoops.listCmpModelled ∧
+    CelloGen.CmpLoops.tupleCmpText = CelloGen.CmpLoops.tupleCmpModelled ∧ CelloGen.CmpLoops.treeCmpText = CelloGen.CmpLoops.treeCmpModelled ∧
+    CelloGen.CmpLoops.stringCmpText = CelloGen.CmpLoops.stringCmpModelled ∧ CelloGen.CmpLoops.typeCmpText = CelloGen.CmpLoops.typeCmpModelled ∧
+    CelloGen.CmpLoops.cmpDispatchText = CelloGen.CmpLoops.cmpDispatchModelled ∧
+    CelloGen.CmpLoops.arrayIterNextText = CelloGen.CmpLoops.arrayIterNextModelled ∧
+    CelloGen.CmpLoops.listIterNextText = CelloGen.CmpLoops.listIterNextModelled ∧
+    CelloGen.CmpLoops.tupleIterInitText = CelloGen.CmpLoops.tupleIterInitModelled ∧
+    CelloGen.CmpLoops.tupleIterNextText = CelloGen.CmpLoops.tupleIterNextModelled :=
+  ⟨rfl, rfl, rfl, rfl, rfl, rfl, rfl, rfl, rfl, rfl, rfl⟩
+
+/-- the discipline the model is run with is the one of the source: Array_Cmp and List_Cmp go through their iterators,
+    Tuple_Cmp by slot index -/
+theorem C09_discipline_as_modelled :
+    sourceDiscipline = { arraySelf := .byIterator, listSelf := .byIterator, tupleSelf := .byIndex } := rfl
 
 end Cello.Cmp
